@@ -91,7 +91,7 @@ RENDERINGS = collections.OrderedDict([
 ])
 assert len(RENDERINGS) == 14
 RNAMES = list(RENDERINGS)
-FLAGS = ['--flag', '-p', '--value', '-X', '--pw', '--from']
+FLAGS = ['--flag', '-p', '--value', '-X', '--pw', '--from', '--new_value', '-o_v', '--dry_run', '--x_y_z']
 
 MASKS = [None, '***', '***', '*', 'XXXXXXXX', '[redacted]', '####', '(hidden)', '…', '%s', '{}', '$1',
          '.*', '?', '+++', 'é*', 'MASK', '0', '***REMOVED***', '/dev/null', '~']
